@@ -1,20 +1,23 @@
 #!/bin/bash
-# runs every filed seed against its property's quick check (plus extra checks given in seeded/<id>/also) and writes seeded/DETECTION.json
+# runs every filed seed against its property's quick check (plus extra checks listed in seeded/<id>/also) in scratch worktrees
+# and writes seeded/DETECTION.json.  usage: seedall.sh [jobs]
 cd /verif
-echo "{" > /tmp/det.json; first=1
-for s in $(ls seeded | grep -E "^C[0-9]+_[0-9]+$"); do
-  props=${s%%_*}
-  [ -f seeded/$s/also ] && props="$props $(cat seeded/$s/also)"
+J=${1:-3}
+ls seeded | grep -E "^C[0-9]+_[0-9]+$" | xargs -P $J -I{} bash -c '
+  s={}; props=${s%%_*}; [ -f seeded/$s/also ] && props="$props $(cat seeded/$s/also)"
   caught=""
-  git -C /repo apply seeded/$s/patch.diff || { echo "patch $s does not apply"; continue; }
   for pr in $props; do
-    out=$(timeout 2400 /venv/bin/python -m vf.run $pr --tier quick 2>&1 | grep -E "^(VIOLATION|HARNESS)" | head -1)
-    case "$out" in VIOLATION*) caught="$caught $pr";; HARNESS*) caught="$caught $pr(harness-error)";; esac
+    out=$(./seedrun.sh $s $pr 2>&1 | grep -E "^(VIOLATION|HARNESS|patch does not)" | head -1)
+    case "$out" in VIOLATION*) caught="$caught $pr";; HARNESS*) caught="$caught $pr(harness-error)";; patch*) caught="$caught patch-does-not-apply";; esac
   done
-  git -C /repo checkout -- .
-  [ $first = 1 ] || echo "," >> /tmp/det.json; first=0
-  echo "\"$s\": {\"caught_by\": \"$(echo $caught | sed 's/^ //')\"}" >> /tmp/det.json
-  echo "$s -> $caught"
-done
-echo "}" >> /tmp/det.json
-python3 -c "import json; d=json.load(open('/tmp/det.json')); json.dump(d, open('/verif/seeded/DETECTION.json','w'), indent=1, sort_keys=True)"
+  echo "$s|$(echo $caught | sed "s/^ //")"
+' > /tmp/seedall.out
+python3 - <<'PY'
+import json
+d={}
+for l in open('/tmp/seedall.out'):
+    if '|' in l:
+        a,b=l.strip().split('|',1); d[a]={"caught_by": b}
+json.dump(d, open('/verif/seeded/DETECTION.json','w'), indent=1, sort_keys=True)
+print(len(d), "seeds;", sum(1 for v in d.values() if not v["caught_by"]), "not caught:", [k for k,v in d.items() if not v["caught_by"]])
+PY
